@@ -21,10 +21,10 @@ const prop = "C07"
 
 func alphabet() []string {
 	return []string{
-		"regnode n2", "regnode n2 allow", "regnode n2 deny", "regnode n2 bogus",
+		"regnode n2", "regnode n2 allow", "regnode n2 deny", "regnode n2 bogus", "regnode n2 empty",
 		"regnode n3", "regnode n3 deny", "regnode n4",
 		"rmnode n2", "rmnode n3",
-		"regpipe t1 p1 n2,n3", "regpipe t1 p1 n2,n3 allow", "regpipe t1 p1 n2,n3 deny", "regpipe t1 p1 n2,n3 bogus",
+		"regpipe t1 p1 n2,n3", "regpipe t1 p1 n2,n3 allow", "regpipe t1 p1 n2,n3 deny", "regpipe t1 p1 n2,n3 bogus", "regpipe t1 p1 n2,n3 empty",
 		"regpipe t1 p1 n2,n4", "regpipe t1 p1 n2,n4 deny",
 		"regpipe t2 p1 n2,n3", "regpipe t2 p1 n2,n3 deny",
 		"rmpipe t1 p1", "rmpipe t2 p1", "rmpipenodes t1 p1",
